@@ -234,8 +234,9 @@ def shrink_candidates(spec, rng=None):
     # fewer columns
     hdr = wl['header']
     if len(hdr) > 1:
+        referenced = ' '.join(str(v) for v in spec['cli'].values() if isinstance(v, str))
         for j, name in enumerate(hdr):
-            if name == wl['label']:
+            if name == wl['label'] or name in referenced:
                 continue
             nl = []
             for ln in lines:
@@ -471,7 +472,7 @@ def run_check(prop, args, profile, rule, signature, nontrivial, crash_mode=False
     return code
 
 
-def same_failure(prop, spec, res, cls, phase_index=None, census=None):
+def same_failure(prop, spec, res, cls, phase_index=None, census=None, key=None):
     try:
         phs = phase_values(res)
     except Harness:
@@ -480,7 +481,7 @@ def same_failure(prop, spec, res, cls, phase_index=None, census=None):
         vio, _, harness = classify_phase(prop, spec, ph)
         if harness:
             return False
-        if any(v[0] == cls for v in vio):
+        if any(v[0] == cls and (key is None or cls != 'task-exception' or v[1] == key) for v in vio):
             return True
     if cls == 'restart-differs' and census is not None and len(phs) > 1:
         p0 = phs[0]['proc'].get('value', {})
@@ -495,14 +496,14 @@ def handle_violation(pool, rep, prop, spec, vio, phase_index=0, census=None):
     if cls != 'restart-differs':
         def fails_many(cands):
             rs = pool.run([job_of(c) for c in cands])
-            return [same_failure(prop, c, r, cls) for c, r in zip(cands, rs)]
+            return [same_failure(prop, c, r, cls, key=key) for c, r in zip(cands, rs)]
         try:
             small = shrink(pool, spec, fails_many)
         except common.HarnessError:
             small = spec
         # final confirmation + fresh detail from the minimised spec
         r = pool.run([job_of(small)])[0]
-        if same_failure(prop, small, r, cls):
+        if same_failure(prop, small, r, cls, key=key):
             for ph in phase_values(r):
                 for v in classify_phase(prop, small, ph)[0]:
                     if v[0] == cls:
@@ -523,7 +524,7 @@ def replay(prop, args, rep):
     pool = common.ZygotePool(hashseeds=[hs], width=2)
     r = pool.run([job_of(spec)])[0]
     census = {'ranks': [tuple(x) for x in obj['census_ranks']]} if obj.get('census_ranks') is not None else None
-    ok = same_failure(prop, spec, r, obj['class'], census=census)
+    ok = same_failure(prop, spec, r, obj['class'], census=census, key=obj.get('key'))
     if obj['class'] == 'restart-differs' and census is not None:
         phs = phase_values(r)
         p1 = phs[1]['proc'].get('value', {}) if len(phs) > 1 else {}
